@@ -316,3 +316,41 @@ pub fn check_strict(case: &str) -> Result<(), String> {
     Err(format!("`{}` on its own is {} but in the context {} it is {}{}", text, show(&alone), ctx, show(&here),
                 match known_deviation(&ctx, &text, &alone, &here) { Some(k) => format!(" [known deviation: {}]", k), None => " [NOT a known deviation]".to_string() }))
 }
+
+// ---- C14 / C12 at the surface: what an infix means -----------------------------------------------------------------------------
+/// `L op R` as a subgoal is the built-in predicate named after the operator on the two operands; `L op R` as a term (arithmetic) is
+/// the function named after the operator.  Case: `<op> :: <left> :: <right>`
+pub fn enum_infix(_s: u64) -> Vec<String> {
+    let ops = ["=", "==", "<", "<=", ">", ">=", "+", "-", "*", "/"];
+    let operands = [("$X", "3"), ("a", "$Y"), ("f($X)", "[1, 2]"), ("2.5", "$Z"), ("$A", "$B")];
+    let mut out = vec![];
+    for op in ops { for (l, r) in operands { out.push(format!("{} :: {} :: {}", op, l, r)); } }
+    out
+}
+pub fn check_infix_meaning(case: &str) -> Result<(), String> {
+    let parts: Vec<&str> = case.split(" :: ").collect();
+    if parts.len() != 3 { return Err("bad case".into()); }
+    let (op, l, r) = (parts[0], parts[1], parts[2]);
+    let (lt, rt) = (parse_term(l)?, parse_term(r)?);
+    let want = match op { "=" => "unify", "==" => "equal", "<" => "less_than", "<=" => "less_than_or_equal", ">" => "greater_than", ">=" => "greater_than_or_equal",
+                          "+" => "add", "-" => "subtract", "*" => "multiply", _ => "divide" };
+    let text = format!("{} {} {}", l, op, r);
+    if ["+", "-", "*", "/"].contains(&op) {
+        match parse_term(&text)? {
+            Unifiable::SFunction { name, terms } => {
+                if name != want { return Err(format!("`{}` is the function {}, the operator means {}", text, name, want)); }
+                if terms.len() != 2 || ser(&terms[0]) != ser(&lt) || ser(&terms[1]) != ser(&rt) { return Err(format!("`{}`: the operands are {:?}", text, terms)); }
+                Ok(())
+            },
+            o => Err(format!("`{}` is not a function: {:?}", text, o)),
+        }
+    } else {
+        match parse_subgoal(&text)? {
+            Goal::BuiltInGoal(b) => {
+                if b.functor != want { return Err(format!("`{}` is the predicate {}, the operator means {}", text, b.functor, want)); }
+                match &b.terms { Some(ts) if ts.len() == 2 && ser(&ts[0]) == ser(&lt) && ser(&ts[1]) == ser(&rt) => Ok(()), o => Err(format!("`{}`: the operands are {:?}", text, o)) }
+            },
+            o => Err(format!("`{}` is not a built-in predicate: {:?}", text, o)),
+        }
+    }
+}
